@@ -251,10 +251,73 @@ fn twin_alternatives_scenario(case: &mut Case, rng: &mut Rng) {
     }
 }
 
+/// `-h HOST` / `-V LEVEL` of the user's own next to a subcommand: the attached spelling
+/// (`-hlocalhost`) is an ordinary argument, a help request on the same line wins as always
+fn builtin_letter_as_argument_scenario(case: &mut Case, rng: &mut Rng) {
+    let letter = if rng.chance(1, 2) { 'h' } else { 'V' };
+    let user = Spec::wrap(
+        W::Optional { catch: false },
+        2,
+        Spec::Item(Item {
+            id: 1,
+            names: Names::short(letter),
+            help: None,
+            leaf: Leaf::Arg {
+                ty: Ty::Str,
+                metavar: "M1".into(),
+                adjacent: false,
+            },
+        }),
+    );
+    let mut copts = OptSpec::plain(Spec::Seq(vec![Spec::Item(Item {
+        id: 11,
+        names: Names::short('f'),
+        help: None,
+        leaf: Leaf::Switch,
+    })]));
+    copts.header = Some(header_of(10));
+    let cmd = Spec::Cmd(Box::new(CmdSpec {
+        id: 10,
+        names: vec!["run".to_string()],
+        shorts: vec![],
+        help: None,
+        adjacent: false,
+        opts: copts,
+    }));
+    let mut spec = OptSpec::plain(Spec::Seq(vec![user, cmd]));
+    spec.header = Some(header_of(0));
+    let b = Bench::new(case, spec);
+    let attached = format!("-{}localhost", letter).into_bytes();
+    let (argv, level): (Vec<Vec<u8>>, Id) = match rng.below(3) {
+        0 => (vec![attached, b"run".to_vec(), b"--help".to_vec()], 10),
+        1 => (vec![attached, b"--help".to_vec()], 0),
+        _ => (vec![b"--help".to_vec(), attached, b"run".to_vec()], 0),
+    };
+    let (out, _) = b.run(case, &argv, "help:builtin-letter-declared-as-argument");
+    let ok = matches!(&out, Outcome::Stdout { text, .. } if text.contains(&header_of(level)));
+    if !ok && !matches!(out, Outcome::Panic(_) | Outcome::FuelExhausted) {
+        case.rep.violation(
+            &format!("help-or-version-lost:builtin-letter-declared-as-argument:{}", out.class()),
+            "help-wins",
+            case.index,
+            b.detail(
+                &argv,
+                "help:builtin-letter-declared-as-argument",
+                &format!("Stdout with marker {}", header_of(level)),
+                &out,
+            ),
+        );
+    }
+}
+
 pub fn run_case(case: &mut Case) {
     let mut rng = case.rng(0);
     if rng.chance(1, 16) {
         twin_alternatives_scenario(case, &mut rng);
+        return;
+    }
+    if rng.chance(1, 24) {
+        builtin_letter_as_argument_scenario(case, &mut rng);
         return;
     }
     let mut spec = gen_options(&mut rng, opts());
